@@ -136,7 +136,20 @@ def adopt(name, hugr) -> G:
     g.m.nodes = {}
     g.handles, g.spec, g.req_outs = {}, {}, {}
     from ..oracles.refgraph import RNode
-    for rank, n in enumerate(live):
+    # position of each node in the document: index rank, or a hierarchy walk when indices have been reused
+    pos = {hugr.root.idx: 0}
+    doc_children = {}
+    for i, o in enumerate(doc["nodes"]):
+        if i != 0:
+            doc_children.setdefault(o["parent"], []).append(i)
+    stack = [hugr.root]
+    while stack:
+        x = stack.pop()
+        for c, dpos in zip(hugr.children(x), doc_children.get(pos[x.idx], [])):
+            pos[c.idx] = dpos
+            stack.append(c)
+    for n in live:
+        rank = pos[n.idx]
         d = hugr[n]
         rn = RNode(d.op, d.parent.idx if d.parent is not None else None, d.metadata, None)
         rn.children = [c.idx for c in hugr.children(n)]
